@@ -354,6 +354,7 @@ pub fn verify_parsed(vf: &RefVerifier, pf: &RefProof, pi: &[Fr], version: Versio
 /// (only used by the harness to check that a forgery it constructs is the one it means to
 /// construct: balanced for the old u, hence rejected only because u is bound to the openings).
 pub fn verify_parsed_with_u(vf: &RefVerifier, pf: &RefProof, pi: &[Fr], version: Version, u_override: Option<Fr>) -> Verdict {
+    LAST_PRODUCT.with(|c| c.set(None));
     if pi.len() != vf.pi_rows.len() {
         return Verdict::Reject("public-input length");
     }
@@ -507,9 +508,20 @@ pub fn verify_parsed_with_u(vf: &RefVerifier, pf: &RefProof, pi: &[Fr], version:
     let right = mul(&pc[9], &z) + mul(&pc[10], &(ch.u * z * omega)) + acc;
     let lhs = pairing(&G1Affine::from(left), &vf.x_h);
     let rhs = pairing(&G1Affine::from(right), &vf.h);
+    LAST_PRODUCT.with(|c| c.set(Some((lhs, rhs))));
     if lhs == rhs {
         Verdict::Accept
     } else {
         Verdict::Reject("pairing equation")
     }
+}
+
+thread_local! {
+    static LAST_PRODUCT: std::cell::Cell<Option<(dusk_bls12_381::Gt, dusk_bls12_381::Gt)>> = const { std::cell::Cell::new(None) };
+}
+
+/// The two sides e(left, [x]_2), e(right, [1]_2) of the last evaluation of the equation on this
+/// thread (None if the last call was rejected before the equation was reached).
+pub fn take_last_equation() -> Option<(dusk_bls12_381::Gt, dusk_bls12_381::Gt)> {
+    LAST_PRODUCT.with(|c| c.take())
 }
